@@ -121,6 +121,9 @@ structure Config where
   deviceLife : Dur := 10 * 60 * 1000000000      -- DeviceAndUserCodeLifespan
   parLife : Dur := 5 * 60 * 1000000000          -- PushedAuthorizeContextLifespan
   enforcePAR : Bool := false
+  /-- access tokens are JWTs (`compose.NewOAuth2JWTStrategy`): validated from their own signature and claims,
+      expiry compared in whole seconds; codes and refresh tokens stay HMAC tokens -/
+  jwtAccess : Bool := false
   deriving Repr
 
 /-- A credential as presented on the wire, after abstraction: which stored signature its
